@@ -73,6 +73,7 @@ var DictHandshakeTypeNameIndexed = map[string]uint8{
 	"new_session_ticket":         4,
 	"end_of_early_data":          5,
 	"hello_retry_request":        6,
+	"Unassigned":                 7,
 	"encrypted_extensions":       8,
 	"request_connection_id":      9,
 	"new_connection_id":          10,
